@@ -101,21 +101,39 @@ def sweeps (lc : EnumLastCase) (os order : List Obj) : Nat → St → St
 
 def initial : St := { marks := fun _ => .notknown, schemaUnprocessed := false }
 
-/-- the state after `k` iterations of `do { unknowncnt = 0; <sweep> } while( … )` -/
-def loopState (lc : EnumLastCase) (os order : List Obj) : Nat → St
-  | 0 => initial
-  | k + 1 => sweep lc os order { loopState lc os order k with unknown := 0 }
+/-- the suffixes `SCHEMAprint` is called with for the schema -/
+def suffixes (s : St) : List Nat := if s.schemaUnprocessed then [1, 2] else [0]
 
-/-- the loop may stop after its `k`-th iteration (`k ≥ 1`) -/
-def loopMayExit (l : SweepLoop) (k : Nat) (s : St) : Prop :=
+/-- state of the sweep loop of `checkTypes`: the pass state, `lastunknowncnt`, and whether the loop has been left -/
+structure LoopSt where
+  st : St
+  last : Int := -1
+  exited : Bool := false
+
+/-- the stall exit: every type of the schema that is still NOTKNOWN becomes CANPROCESS -/
+def markRemaining (order : List Obj) (s : St) : St :=
+  { s with marks := fun k => if s.marks k = .notknown ∧ order.any (fun o => o.name == k) then .canprocess else s.marks k }
+
+/-- `unknowncnt = 0;` at the top of a sweep -/
+def resetUnknown (s : St) : St := { marks := s.marks, schemaUnprocessed := s.schemaUnprocessed, unknown := 0 }
+
+/-- iteration number `k` (1-based) of `do { unknowncnt = 0; <sweep>; <stall test> } while( … )` under the regenerated
+    shape of the loop -/
+def iterate (l : SweepLoop) (lc : EnumLastCase) (os order : List Obj) (ls : LoopSt) (k : Nat) : LoopSt :=
+  if ls.exited then ls else
+  let s' := sweep lc os order (resetUnknown ls.st)
   match l with
-  | .untilSettled => s.unknown ≤ 0
-  | .bounded n => s.unknown ≤ 0 ∨ n ≤ k
+  | .untilSettled => { st := s', last := ls.last, exited := decide (s'.unknown ≤ 0) }
+  | .bounded n => { st := s', last := ls.last, exited := decide (s'.unknown ≤ 0) || decide (n ≤ k) }
+  | .untilSettledOrStalled =>
+    if 0 < s'.unknown ∧ s'.unknown = ls.last then { st := markRemaining order s', last := ls.last, exited := true }
+    else { st := s', last := s'.unknown, exited := decide (s'.unknown ≤ 0) }
+
+def run (l : SweepLoop) (lc : EnumLastCase) (os order : List Obj) : Nat → LoopSt
+  | 0 => { st := initial }
+  | k + 1 => iterate l lc os order (run l lc os order k) (k + 1)
 
 /-- nothing is left undecided: every object of the sweep order was given a verdict -/
 def Settled (order : List Obj) (s : St) : Prop := ∀ o ∈ order, s.marks o.name ≠ .notknown
-
-/-- the suffixes `SCHEMAprint` is called with for the schema -/
-def suffixes (s : St) : List Nat := if s.schemaUnprocessed then [1, 2] else [0]
 
 end StepModel.GenFiles.Pass
